@@ -17,7 +17,7 @@ tb: /b/
 
 S {int} :
     ta num[first] (tb num[second])?
-      { $$ = $first; if ${second.offset} >= 0 { $$ += $second }; _ = ${first().offset} + ${last().endoffset} }
+      { v := $first; if ${second.offset} >= 0 { v += $second }; _ = ${first().offset} + ${last().endoffset}; $$ = v }
   | tb (ta | tb)[kw] num
       { $$ = $num + ${kw.offset} - ${left().offset} }
 ;
